@@ -217,6 +217,7 @@ variable (E : Env S) (cp : S → Nat) (pc : Nat → Bytes) (coldef : Nat → Nat
   (parse : Connection S → Bytes → Option (ComStmtExecute S)) (app : S → Option (ResultSet S))
   (ur : S → Bool) (fls : ComFieldList S → S) (fcd : Nat → S → Bytes → Bytes)
   (other : Nat → Connection S → Bytes → Except (Connection S) (Connection S)) (err : Connection S → Bytes)
+  (af : Nat → Connection S → Bytes → Option (Connection S))
 
 def DKeeps (c : Connection S) : Except (Connection S) (Option (Connection S)) → Prop
   | .ok (some s) => Same c s
@@ -275,39 +276,54 @@ theorem dispatch_keeps (hother : ∀ k c d, Keeps c (other k c d)) (c : Connecti
   exact same_refl _
 
 /-- one iteration keeps capabilities and status flags -/
-theorem step_keeps (hother : ∀ k c d, Keeps c (other k c d)) (c : Connection S) (data : Bytes) :
-    Same c (command_step E cp pc coldef parse app ur fls fcd other err c data).1 := by
-  have h := command_step_spec E cp pc coldef parse app ur fls fcd other err c data
-  cases data with
-  | nil => dsimp only at h; rw [h]; exact ⟨rfl, rfl⟩
-  | cons command rest =>
-    dsimp only at h
-    have hd := dispatch_keeps E cp pc coldef parse app ur fls fcd other hother ({ c with _executing := true } : Connection S) command.toNat rest
-    cases hx : dispatch E cp pc coldef parse app ur fls fcd other ({ c with _executing := true } : Connection S) command.toNat rest with
-    | error s => rw [hx] at h hd; dsimp only at h; rw [h]; exact ⟨hd.1, hd.2⟩
-    | ok o =>
-      cases o with
-      | none => rw [hx] at h; dsimp only at h; rw [h]; exact ⟨rfl, rfl⟩
-      | some s => rw [hx] at h hd; dsimp only at h; rw [h]; exact ⟨hd.1, hd.2⟩
+theorem step_keeps (hother : ∀ k c d, Keeps c (other k c d)) (haf : ∀ k c d s, af k c d = some s → Same c s) (c : Connection S) (data : Bytes) :
+    Same c (command_step E cp pc coldef parse app ur fls fcd other err af c data).1 := by
+  have h := command_step_spec E cp pc coldef parse app ur fls fcd other err af c data
+  dsimp only at h
+  cases ha : authEnded af c data with
+  | some s =>
+    rw [ha] at h; dsimp only at h; rw [h]
+    have hs : Same ({ c with _executing := true } : Connection S) s := by
+      cases data with
+      | nil => simp [authEnded] at ha
+      | cons command rest =>
+        simp only [authEnded] at ha
+        by_cases hu : untranslated.contains command.toNat = true
+        · rw [if_pos hu] at ha; exact haf _ _ _ _ ha
+        · rw [if_neg hu] at ha; cases ha
+    exact ⟨hs.1, hs.2⟩
+  | none =>
+    rw [ha] at h; dsimp only at h
+    cases data with
+    | nil => dsimp only at h; rw [h]; exact ⟨rfl, rfl⟩
+    | cons command rest =>
+      dsimp only at h
+      have hd := dispatch_keeps E cp pc coldef parse app ur fls fcd other hother ({ c with _executing := true } : Connection S) command.toNat rest
+      cases hx : dispatch E cp pc coldef parse app ur fls fcd other ({ c with _executing := true } : Connection S) command.toNat rest with
+      | error s => rw [hx] at h hd; dsimp only at h; rw [h]; exact ⟨hd.1, hd.2⟩
+      | ok o =>
+        cases o with
+        | none => rw [hx] at h; dsimp only at h; rw [h]; exact ⟨rfl, rfl⟩
+        | some s => rw [hx] at h hd; dsimp only at h; rw [h]; exact ⟨hd.1, hd.2⟩
 
 /-- **a whole conversation keeps them**: every command of every conversation is answered under the capabilities and status
     flags the command phase started with -/
-theorem loop_keeps (hother : ∀ k c d, Keeps c (other k c d)) (c : Connection S) (ps : List Bytes) :
-    Same c (command_loop E cp pc coldef parse app ur fls fcd other err c ps).1 := by
+theorem loop_keeps (hother : ∀ k c d, Keeps c (other k c d)) (haf : ∀ k c d s, af k c d = some s → Same c s) (c : Connection S) (ps : List Bytes) :
+    Same c (command_loop E cp pc coldef parse app ur fls fcd other err af c ps).1 := by
   induction ps generalizing c with
   | nil => exact same_refl _
   | cons p ps ih =>
     rw [loop_cons]
-    have hs := step_keeps E cp pc coldef parse app ur fls fcd other err hother c p
-    by_cases hg : (command_step E cp pc coldef parse app ur fls fcd other err c p).2 = true
+    have hs := step_keeps E cp pc coldef parse app ur fls fcd other err af hother haf c p
+    by_cases hg : (command_step E cp pc coldef parse app ur fls fcd other err af c p).2 = true
     · simp only [hg, if_true]; exact same_trans hs (ih _)
     · simp only [hg]; exact hs
 
 /-- in particular the terminator convention (EOF packets or OK-as-EOF) never changes during a conversation -/
-theorem loop_deprecate_eof (hother : ∀ k c d, Keeps c (other k c d)) (c : Connection S) (ps : List Bytes) :
-    deprecate_eof (command_loop E cp pc coldef parse app ur fls fcd other err c ps).1 = deprecate_eof c := by
+theorem loop_deprecate_eof (hother : ∀ k c d, Keeps c (other k c d)) (haf : ∀ k c d s, af k c d = some s → Same c s) (c : Connection S) (ps : List Bytes) :
+    deprecate_eof (command_loop E cp pc coldef parse app ur fls fcd other err af c ps).1 = deprecate_eof c := by
   unfold deprecate_eof
-  rw [(loop_keeps E cp pc coldef parse app ur fls fcd other err hother c ps).1]
+  rw [(loop_keeps E cp pc coldef parse app ur fls fcd other err af hother haf c ps).1]
 
 end loop
 end MimicProofs.Frame
